@@ -170,7 +170,11 @@ impl<BE: DecryptWriteBackend> Indexer<BE> {
             warn!("couldn't get elapsed time from system time: {err:?}");
             Duration::ZERO
         });
-        if self.count >= constants::MAX_COUNT || elapsed >= constants::MAX_AGE {
+        #[cfg(feature = "verif-hooks")]
+        let max_count = crate::verif::indexer_max_count(constants::MAX_COUNT);
+        #[cfg(not(feature = "verif-hooks"))]
+        let max_count = constants::MAX_COUNT;
+        if self.count >= max_count || elapsed >= constants::MAX_AGE {
             self.save()?;
             self.reset();
         }
